@@ -1,4 +1,4 @@
-import Aiorpcx.C08.Live
+import Aiorpcx.C08.Anytime
 import Aiorpcx.Facts.C08
 /-!
 # C08 — losing or closing a connection releases every waiter and leaves no task behind
@@ -648,6 +648,39 @@ example : (run (init 30 30 50 true) [.request 1 .slow, .request 2 (.closer 7)]).
     (run (init 30 30 50 true) [.request 1 .slow, .request 2 (.closer 7)]).lost = false ∧
     (run (init 30 30 50 true) [.request 1 .slow, .request 2 (.closer 7), .advance 7]).closedEvent = true := by
   decide +kernel
+
+/-- **... whatever happens meanwhile**: from every reachable state in which the transport is
+closing or message processing is torn down there is an instant `T` such that after *any*
+continuation - requests, answers, more `close()` / `abort()` calls, cancellations, drops, clock
+ticks in any order - that brings the clock to `T` or beyond, `_closed_event` is set.  (No new
+handler can start, whoever sits in `close()` keeps its deadline or brings the loss earlier, the
+handlers' reactions end by "deadline + reaction time": `Anytime.lean`.) -/
+theorem closing_leads_to_closed_any {s : S} (h : Reachable s) (hc : s.closing = true ∨ s.down = true) :
+    ∃ T, ∀ es, T ≤ (run s es).now → (run s es).closedEvent = true := by
+  have i := h.inv
+  obtain ⟨A, w⟩ : ∃ A, Will s A := by
+    rcases Bool.eq_false_or_eq_true s.down with hd | hd
+    · exact ⟨s.now, Or.inl hd⟩
+    · have hcl : s.closing = true := by
+        rcases hc with h1 | h1
+        · exact h1
+        · rw [hd] at h1; cases h1
+      have hl := i.h.not_lost_of_not_down hd
+      rcases never_half_closed h hcl hl with ⟨c, hcm, hw, _⟩ | ⟨x, hx, hr, d, hk, _⟩
+      · exact ⟨c.deadline, Or.inr (Or.inl ⟨c, hcm, hw, Nat.le_refl _⟩)⟩
+      · exact ⟨d, Or.inr (Or.inr ⟨x, hx, by simp [Handler.inClose, hr, hk], d, hk, Nat.le_refl _⟩)⟩
+  refine ⟨max A (endBound s A), ?_⟩
+  intro es hT
+  obtain ⟨i', w', e'⟩ := run_will es i w (EB_endBound s A)
+  exact closed_of_will i' w' e' (by omega) (by omega)
+
+/-- a stalled close from a handler, then requests, answers, a second close, cancellations: closed
+at 8 (the cancelled close() aborts at 5, the stubborn handler reacts until 8) all the same -/
+example :
+    let s := run (init 30 30 50 true)
+      [.request 1 (.stubborn 3), .outgoing 1, .request 2 (.closer 7), .advance 2, .request 3 .slow,
+       .answer 1, .appClose 1 30, .advance 3, .cancelClose 1, .outgoing 2, .advance 5]
+    s.closedEvent = true ∧ s.closedAt = some 8 ∧ s.abortedAt = some 5 := by decide +kernel
 
 /-- **Closing is safe from any context, concurrently and repeatedly**: any number of
 `appClose` / closing-handler / cancelClose / abort / drop events, in any order and interleaved
